@@ -5,19 +5,15 @@ CONSTANTS
   Grids <- MCGrids
   NGrids = 4
   Sizes = {"heavy", "light", "lighter"}
-  Kinds = {"flux", "simple", "native"}
-  Keys = {"none", "content", "length", "ends"}
-  Convs = {"copy", "inplace"}
+  Kinds = {"flux"}
+  Keys = {"none"}
+  Convs = {"copy"}
   Depth = 2
   Export = "pairs"
 INVARIANT HoldPure
 INVARIANT HoldFresh
 INVARIANT HoldNative
-INVARIANT AlphabetInv
 INVARIANT FitsInv
-INVARIANT RefuteLength
-INVARIANT RefuteEnds
-INVARIANT RefuteInplace
 CONSTRAINT Bound
 CONSTRAINT EmitOps
 CONSTRAINT EmitWalk
